@@ -196,35 +196,56 @@ def lean_audit_raw(module, names):
     return res, out, p.returncode
 
 
-def grep_forbidden():
-    hits = []
-    for base, _, files in os.walk(LEAN):
-        if ".lake" in base:
+def import_closure(module):
+    """the project files a module depends on (transitively), by reading `import` lines"""
+    seen, todo = {}, [module]
+    while todo:
+        m = todo.pop()
+        path = os.path.join(LEAN, m.replace(".", os.sep) + ".lean")
+        if m in seen or not os.path.exists(path):
             continue
-        for fn in files:
-            if not fn.endswith(".lean"):
+        seen[m] = path
+        for line in open(path, encoding="utf-8"):
+            mm = re.match(r"\s*import\s+(\S+)", line)
+            if mm:
+                todo.append(mm.group(1))
+            elif line.strip() and not line.startswith("--") and not line.startswith("/-") and not line.startswith("import"):
+                if not re.match(r"\s*(import|--|/-)", line):
+                    pass
+    return seen
+
+
+def grep_forbidden(module=None):
+    """sorry/admit/native_decide/... in the sources the module depends on (comments stripped)"""
+    hits = []
+    if module is not None:
+        paths = sorted(import_closure(module).values())
+    else:
+        paths = []
+        for base, _, files in os.walk(LEAN):
+            if ".lake" in base:
                 continue
-            path = os.path.join(base, fn)
-            in_block = 0
-            for i, line in enumerate(open(path, encoding="utf-8"), 1):
-                s = line
-                # strip comments (line comments and simple block comments)
-                if in_block:
-                    if "-/" in s:
-                        in_block = 0
-                        s = s.split("-/", 1)[1]
-                    else:
-                        continue
-                if "/-" in s:
-                    pre, rest = s.split("/-", 1)
-                    if "-/" in rest:
-                        s = pre + rest.split("-/", 1)[1]
-                    else:
-                        s = pre
-                        in_block = 1
-                s = s.split("--", 1)[0]
-                if FORBIDDEN.search(s):
-                    hits.append("%s:%d: %s" % (os.path.relpath(path, LEAN), i, line.strip()))
+            paths += [os.path.join(base, fn) for fn in files if fn.endswith(".lean")]
+    for path in paths:
+        in_block = 0
+        for i, line in enumerate(open(path, encoding="utf-8"), 1):
+            s = line
+            if in_block:
+                if "-/" in s:
+                    in_block = 0
+                    s = s.split("-/", 1)[1]
+                else:
+                    continue
+            if "/-" in s:
+                pre, rest = s.split("/-", 1)
+                if "-/" in rest:
+                    s = pre + rest.split("-/", 1)[1]
+                else:
+                    s = pre
+                    in_block = 1
+            s = s.split("--", 1)[0]
+            if FORBIDDEN.search(s):
+                hits.append("%s:%d: %s" % (os.path.relpath(path, LEAN), i, line.strip()))
     return hits
 
 
@@ -257,7 +278,7 @@ def audit(prop, thorough=False):
             continue
         details[n] = {"axioms": r["axioms"], "statement": r["stmt"][:600]}
     obligations += 1
-    hits = grep_forbidden()
+    hits = grep_forbidden(module)
     if hits:
         failed.append("forbidden tokens: " + "; ".join(hits[:5]))
     if thorough:
